@@ -150,6 +150,57 @@ func (r *run) source(side string, cur, prev pair) nodeenrollment.X25519KeyProduc
 		EncryptionPublicKeyBytes: ek.Pub, EncryptionPublicKeyType: types.KEYTYPE_X25519, PreviousEncryptionKey: r.prevKey(side, prev)}
 }
 
+// retainSource keeps what the underlying source derived and returns the same slices on every call.
+type retainSource struct {
+	id, pid   string
+	key, pkey []byte
+	err, perr error
+}
+
+func retained(src nodeenrollment.X25519KeyProducer) nodeenrollment.X25519KeyProducer {
+	if _, ok := src.(*retainSource); ok {
+		return src
+	}
+	rs := &retainSource{}
+	rs.id, rs.key, rs.err = src.X25519EncryptionKey()
+	rs.pid, rs.pkey, rs.perr = src.PreviousX25519EncryptionKey()
+	return rs
+}
+func (r *retainSource) X25519EncryptionKey() (string, []byte, error)         { return r.id, r.key, r.err }
+func (r *retainSource) PreviousX25519EncryptionKey() (string, []byte, error) { return r.pid, r.pkey, r.perr }
+
+// throughStorage stores the key source with a storage wrapper and loads it back (sources that cannot be filed are used as they are).
+func (r *run) throughStorage(src nodeenrollment.X25519KeyProducer) nodeenrollment.X25519KeyProducer {
+	ctx := r.w.Ctx
+	st, _ := inmem.New(ctx)
+	opt := nodeenrollment.WithStorageWrapper(r.w.Wrappers["SW"])
+	switch x := src.(type) {
+	case *types.NodeInformation:
+		if x.Id == "" || x.Store(ctx, st, opt) != nil {
+			return src
+		}
+		if back, err := types.LoadNodeInformation(ctx, st, x.Id, opt); err == nil {
+			return back
+		}
+	case *types.NodeCredentials:
+		if x.Id == "" {
+			return src
+		}
+		c := proto.Clone(x).(*types.NodeCredentials)
+		if len(c.CertificatePrivateKeyPkcs8) == 0 {
+			c.CertificatePrivateKeyPkcs8 = r.w.EnsureCertKey("kx").Pkcs8
+			c.CertificatePrivateKeyType = types.KEYTYPE_ED25519
+		}
+		if c.Store(ctx, st, opt) != nil {
+			return src
+		}
+		if back, err := types.LoadNodeCredentials(ctx, st, nodeenrollment.KnownId(c.Id), opt); err == nil {
+			return back
+		}
+	}
+	return src
+}
+
 func (r *run) message(kind string) (proto.Message, proto.Message) {
 	rb := func(n int) []byte { b := make([]byte, n); r.rng.Read(b); return b }
 	switch kind {
@@ -184,6 +235,19 @@ func (r *run) crypt(op map[string]any, ln *Line) {
 	_, a, _ := r.source("node", s, pair{"none", "none", "none"}).X25519EncryptionKey()
 	_, b2, _ := r.source("server", s, pair{"none", "none", "none"}).X25519EncryptionKey()
 	ln.Obs.SameSecret = a != nil && bytes.Equal(a, b2)
+	if rs, _ := op["rstore"].(bool); rs {
+		// the receiver's record went through storage with a storage wrapper (store, then load) before it is used
+		receiver = r.throughStorage(receiver)
+	}
+	if rt, _ := op["retain"].(bool); rt {
+		// application-side key sources that agree on the secret once and hand out the SAME slices on every call, used for
+		// a first message before the one that is judged
+		sender, receiver = retained(sender), retained(receiver)
+		m0, o0 := r.message(str(op, "msg"))
+		if c0, err := nodeenrollment.EncryptMessage(r.w.Ctx, m0, sender); err == nil {
+			_ = nodeenrollment.DecryptMessage(r.w.Ctx, c0, receiver, o0)
+		}
+	}
 	msg, out := r.message(str(op, "msg"))
 	if d, _ := op["dirty"].(bool); d {
 		// the receiver decrypts into a message value it has used before
@@ -371,6 +435,28 @@ func (r *run) rec(op map[string]any, ln *Line) {
 		ln.Obs.LoadNone = classify(e2, false)
 		_, e3 := types.LoadNodeInformation(ctx, st, a.Id, other...)
 		ln.Obs.LoadOther = classify(e3, false)
+		if rk, _ := op["rekey"].(bool); rk && wrapOn && e1 == nil {
+			// the deployment re-keys its storage wrapper: a NEW key that reports the SAME key id; the loaded record is
+			// stored again with it.  Loading with the new wrapper gives the record back, the retired one no longer opens it.
+			oldW, _ := nodeenrollment.GetOpts(opts...)
+			newW := world.NewSafeAead("SW", r.rng)
+			if oldW.WithStorageWrapper != nil {
+				if id, _ := oldW.WithStorageWrapper.KeyId(ctx); id != "" && id != "SW" {
+					newW = world.NewSafeAead(id, r.rng)
+				}
+			}
+			if err := l1.Store(ctx, st, nodeenrollment.WithStorageWrapper(newW)); err != nil {
+				ln.Obs.LoadSame = "error"
+			} else {
+				l5, e5 := types.LoadNodeInformation(ctx, st, a.Id, nodeenrollment.WithStorageWrapper(newW))
+				ln.Obs.LoadSame = classify(e5, e5 == nil && proto.Equal(l5, a))
+				if _, e6 := types.LoadNodeInformation(ctx, st, a.Id, opts...); e6 == nil {
+					ln.Obs.LoadOther = "equal" // the retired wrapper still opens what was stored with the new one
+				}
+				// put the original sealing back for the transplant step
+				_ = l1.Store(ctx, st, opts...)
+			}
+		}
 		rawB := &types.NodeInformation{Id: b.Id}
 		_ = inner.Load(ctx, rawB)
 		raw.ServerEncryptionPrivateKeyBytes = rawB.ServerEncryptionPrivateKeyBytes
